@@ -155,6 +155,66 @@ v("keep-compare-factory", "keep", "all", "", [
     (B, "expr.Greater:   greater,", "expr.Greater:   compareWith(\">\"),"),
 ], "a comparison render function produced by a closure factory bound to a constant operator string")
 
+
+# ---------------------------------------------------------------- round-6 rules (standard-library contracts)
+RD = "render.go"
+v("break-c02-fmt-verb-any", "break", "C02", "FMT", [
+    (RF, 'return fmt.Sprintf("%s <= %d", left, iMax), nil', 'return cmpNum(left, "<=", iMax), nil'),
+    (RF, 'return fmt.Sprintf("%s <= %.2f", left, fMax), nil', 'return cmpNum(left, "<=", fMax), nil'),
+    (RF, "func rangParam(", "func cmpNum(left, op string, bound any) string {\n\treturn fmt.Sprintf(\"%s %s %d\", left, op, bound)\n}\n\nfunc rangParam("),
+], "%d applied to an `any` parameter that holds a float64 at one call site")
+v("break-c03-parseint-32", "break", "C03", "NUM-BASE", [
+    (RF, "\tiMin, err = strconv.Atoi(rawMin)\n", "\tvar w int64\n\tw, err = strconv.ParseInt(rawMin, 10, 32)\n\tiMin = int(w)\n"),
+], "integer bounds parsed with bit size 32")
+v("break-c12-boost-nan", "break", "C12", "NUM-FINITE", [
+    (R, "if err == nil && pf > 0 && !math.IsInf(pf, 1) {", "if err == nil && !(pf <= 0) && !math.IsInf(pf, 1) {"),
+], "negated comparison lets NaN through as a boost power")
+v("break-c12-boost-inf", "break", "C12", "NUM-FINITE", [
+    (R, "if err == nil && pf > 0 && !math.IsInf(pf, 1) {", "if err == nil && pf > 0 {"),
+    (R, '\t"math"\n', ""),
+], "the repaired defect returns: +Inf accepted as a boost power")
+v("break-c13-iface-eq", "break", "C13", "PANIC-CMP", [
+    (E, "\t\tif !IsExpr(boundary.Min) {\n", "\t\tif boundary.Min != nil && boundary.Min == boundary.Max {\n\t\t\tboundary.Inclusive = true\n\t\t}\n\t\tif !IsExpr(boundary.Min) {\n"),
+], "two decoded interface values compared with ==")
+v("break-c13-nil-invoke", "break", "C13", "PANIC-NILCALL", [
+    (V_, "func isFloat(in any) bool {\n\tswitch in.(type) {\n\tcase float32, float64:\n\t\treturn true\n\tdefault:\n\t\treturn false\n\t}",
+         "func isFloat(in any) bool {\n\tswitch reflect.TypeOf(in).Kind() {\n\tcase reflect.Float32, reflect.Float64:\n\t\treturn true\n\tdefault:\n\t\treturn false\n\t}"),
+], "method call on reflect.TypeOf(x), which is nil for a nil x")
+v("keep-reflect-kind-guarded", "keep", "all", "", [
+    (V_, "func isFloat(in any) bool {\n\tswitch in.(type) {\n\tcase float32, float64:\n\t\treturn true\n\tdefault:\n\t\treturn false\n\t}",
+         "func isFloat(in any) bool {\n\tif in == nil {\n\t\treturn false\n\t}\n\tswitch reflect.TypeOf(in).Kind() {\n\tcase reflect.Float32, reflect.Float64:\n\t\treturn true\n\tdefault:\n\t\treturn false\n\t}"),
+], "the same through reflect, under a nil test")
+v("break-c08-byte-rune", "break", "C08", "TEXT-UNIT", [
+    (P, "\t\treturn expr.Lit(strings.ReplaceAll(token.Val, `\\`, \"\")), nil", "\t\tvar sb strings.Builder\n\t\tfor i := 0; i < len(token.Val); i++ {\n\t\t\tif token.Val[i] != '\\\\' {\n\t\t\t\tsb.WriteRune(rune(token.Val[i]))\n\t\t\t}\n\t\t}\n\t\treturn expr.Lit(sb.String()), nil"),
+], "bytes of the term re-encoded one by one as runes")
+v("keep-bytewise-unescape", "keep", "all", "", [
+    (P, "\t\treturn expr.Lit(strings.ReplaceAll(token.Val, `\\`, \"\")), nil", "\t\tvar sb strings.Builder\n\t\tfor i := 0; i < len(token.Val); i++ {\n\t\t\tif token.Val[i] != '\\\\' {\n\t\t\t\tsb.WriteByte(token.Val[i])\n\t\t\t}\n\t\t}\n\t\treturn expr.Lit(sb.String()), nil"),
+], "a byte-wise copy that drops backslashes is the same function as ReplaceAll")
+v("break-c12-marshal-ptr-recv", "break", "C12", "JSON-METHODS", [
+    (E, "func (e Expression) MarshalJSON() (out []byte, err error) {", "func (e *Expression) MarshalJSON() (out []byte, err error) {"),
+], "MarshalJSON on the pointer receiver only")
+v("break-c12-parsebool-first", "break", "C12", "JSON-LEAF-ORDER", [
+    (E, "\t// check if it is an int first because all ints can be parsed as floats\n", "\tif b, berr := strconv.ParseBool(string(in)); berr == nil {\n\t\treturn Lit(b), nil\n\t}\n\t// check if it is an int first because all ints can be parsed as floats\n"),
+], "ParseBool tried before Atoi in the decoder")
+v("break-c11-accept-unguarded", "break", "C11", "DF-COVER", [
+    (P, 'if final.Op == expr.Literal && p.defaultField != "" {', 'if p.defaultField != "" && final.Op == expr.Literal || final.Op == expr.Wild {'),
+], "operator precedence: a lone wildcard is scoped without a default field")
+v("break-c11-equals-content", "break", "C11", "DF-VALID", [
+    (V_, "func validateCompare(e *Expression) (err error) {", "func plainText(in any) bool {\n\tx, ok := in.(*Expression)\n\tif !ok || x == nil {\n\t\treturn true\n\t}\n\ts, ok := x.Left.(string)\n\tif !ok {\n\t\treturn true\n\t}\n\tfor _, r := range s {\n\t\tif r == 0 {\n\t\t\treturn false\n\t\t}\n\t}\n\treturn true\n}\n\nfunc validateCompare(e *Expression) (err error) {"),
+    (V_, '\t\treturn errors.New("EQUALS validation: left value must be a literal expression")\n\t}\n', '\t\treturn errors.New("EQUALS validation: left value must be a literal expression")\n\t}\n\tif !plainText(e.Right) {\n\t\treturn errors.New("EQUALS validation: value contains a null byte")\n\t}\n'),
+], "the Equals validator rejects by the characters of the value")
+v("break-c16-peek-early", "break", "C16", "LEX-BACKUP", [
+    (L, "\tswitch r := l.next(); {\n\tcase isAlphaNumeric(r) || isWildcard(r) || isEscape(r):\n\t\tl.backup()\n\t\treturn lexWord\n\tcase isSymbol(r):",
+        "\tr := l.next()\n\tbeforeDigit := unicode.IsDigit(l.peek())\n\t_ = beforeDigit\n\tswitch {\n\tcase isAlphaNumeric(r) || isWildcard(r) || isEscape(r):\n\t\tl.backup()\n\t\treturn lexWord\n\tcase isSymbol(r):"),
+], "a look-ahead between the read and the backup that is meant to undo it")
+v("break-c06-leading-zero-cutset", "break", "C06", "LIT-TYPE", [
+    (P, "\tival, err := strconv.Atoi(token.Val)\n\tif err == nil {", "\tnumeric := strings.TrimLeft(token.Val, \"0\") == token.Val\n\tival, err := strconv.Atoi(token.Val)\n\tif err == nil && numeric {"),
+], "an extra condition ignores a successful integer reading")
+v("keep-err-error-call", "keep", "all", "", [
+    (RD, "\te, err := Parse(in, opts...)\n\tif err != nil {\n\t\treturn \"\", err\n\t}\n\n\treturn postgres.Render(e)", "\te, err := Parse(in, opts...)\n\tif err != nil {\n\t\treturn \"\", errors.New(err.Error())\n\t}\n\n\treturn postgres.Render(e)"),
+    (RD, 'import "github.com/grindlemire/go-lucene/pkg/driver"', 'import (\n\t"errors"\n\n\t"github.com/grindlemire/go-lucene/pkg/driver"\n)'),
+], "a method call on an error under err != nil")
+
 def main():
     os.makedirs(OUT, exist_ok=True)
     for f in os.listdir(OUT):
